@@ -89,17 +89,20 @@ def repo_builds(backend):
 _built = {}
 
 
-def build_bins(backend, bins, profile="dev"):
+def build_bins(backend, bins, profile="dev", nostd=False):
     """Builds the named executor bins for a back-end from /repo's working tree.
-    Returns {bin: path}. Raises Inconclusive or BuildViolation."""
+    Returns {bin: path}. Raises Inconclusive or BuildViolation.
+    nostd: the library is built without its "std" feature (the executor itself remains a std program)."""
     ensure_lock()
     os.makedirs(WORK, exist_ok=True)
-    key = (backend, tuple(sorted(bins)), profile)
+    key = (backend, tuple(sorted(bins)), profile, nostd)
     if key in _built:
         return _built[key]
-    target = target_dir(backend)
+    target = target_dir(backend) + ("-nostd" if nostd else "")
     feats = "fpdec" if backend == "dec" else "astro"
     args = ["build", "--features", feats]
+    if nostd:
+        args = ["build", "--no-default-features"] + (["--features", "fpdec"] if backend == "dec" else [])
     if profile == "release":
         args.append("--release")
     for b in bins:
